@@ -367,6 +367,55 @@ def check_views(ctx, unit):
                     ok = True
                 ctx.inst("B.view-subscript-bounded", "%s: _pointer[] #%d" % (f.sig, k + 1), ok, n.loc,
                          "subscript %s: %s, L = %s._length (relational bounds analysis)" % (canon(idx), why, ".".join(base[:-1])), f)
+        # pointer iteration over the characters (`for(auto it = begin() + k; it != end(); ++it) ... *it`): the pointer is
+        # tracked by its offset from the view's character pointer; a dereference needs 0 <= offset < length
+        by_did = {g.did: g for g in fns}
+
+        def ret_expr(x):
+            g = by_did.get(x.callee.get("did")) if x.kind == "CXXMemberCallExpr" and x.callee else None
+            if g is None or g.params():
+                return None
+            rs = g.return_nodes()
+            return std_unwrap(rs[0].child("val")) if len(rs) == 1 and rs[0].child("val") is not None else None
+        for f in fns:
+            if f.name in UNCHECKED or f.kind in ("ctor", "dtor"):
+                continue
+            owners = {("this",)}
+
+            def is_base(x, owners=owners):
+                x = std_unwrap(x)
+                px = path(x)
+                if px and px[-1] == "_pointer" and px[:-1] in owners and x.kind == "MemberExpr":
+                    return True
+                if x.kind == "CXXMemberCallExpr" and path(x.child("obj")) in owners:
+                    r = ret_expr(x)
+                    return r is not None and path(r) == ("this", "_pointer")
+                return False
+
+            def is_len2(x, owners=owners):
+                x = std_unwrap(x)
+                px = path(x)
+                if px and px[-1] == "_length" and px[:-1] in owners and x.kind == "MemberExpr":
+                    return True
+                if x.kind == "CXXMemberCallExpr" and x.callee and path(x.child("obj")) in owners:
+                    if x.callee["n"] == "size" and x.callee.get("cls") == VIEW:
+                        return True
+                    r = ret_expr(x)
+                    if r is not None and r.kind == "BinaryOperator" and r.op == "+" and {path(std_unwrap(c)) for c in r.children} == {("this", "_pointer"), ("this", "_length")}:
+                        return True         # an end() accessor: base + length
+                return False
+            from .relbounds import RelBounds
+            rbp = RelBounds(f, is_len2, is_base=is_base)
+            if not rbp.ptrvars:
+                continue
+            rbp.run()
+            derefs = sorted([n for n in f.events() if n.kind == "UnaryOperator" and n.op == "*" and rbp._ptr_expr(n.children[0])], key=lambda n: n.loc)
+            for k, n in enumerate(derefs):
+                ok, why = rbp.index_ok(n, n.children[0])
+                if ok is None:
+                    ok = True
+                ctx.inst("B.view-subscript-bounded", "%s: *iterator #%d" % (f.sig, k + 1), ok, n.loc,
+                         "dereference of %s: offset %s, L = this._length (relational bounds analysis over pointer offsets)" % (canon(n.children[0]), why.replace("index", "")), f)
         # element access of ANOTHER view through its (unchecked) operator[]: the index must be inside that view
         for f in fns:
             if f.name in UNCHECKED or f.kind in ("ctor", "dtor"):
@@ -399,17 +448,39 @@ def check_views(ctx, unit):
                     raise AnalysisBroken("anchor vanished: pointer arithmetic in sub_string")
                 bad = []
                 guarded = False
+                inits_ = RA.local_inits(f)
+
+                def controlled(o, depth=0):
+                    """caller-controlled: a parameter, or a once-initialised local computed from parameters"""
+                    o = o.strip()
+                    if o.kind == "DeclRefExpr" and o.get("local"):
+                        if o.d["d"] in pids:
+                            return True
+                        ini = inits_.get(o.d["d"])
+                        if ini is not None and not RA._reassigned(f, o.d["d"]) and depth < 4:
+                            return any(controlled(y, depth + 1) for y in ini.walk() if y.kind == "DeclRefExpr")
+                    return False
+
+                def sums_in(x, depth=0):
+                    """sums of two caller-controlled operands inside x, also behind the locals x reads"""
+                    out = []
+                    for y in x.walk():
+                        if y.kind == "BinaryOperator" and y.op == "+" and not (y.get("t") or "").endswith("*"):
+                            if all(controlled(o) for o in y.children):
+                                out.append(y)
+                        if y.kind == "DeclRefExpr" and y.get("local") and y.d["d"] not in pids and depth < 4:
+                            ini = inits_.get(y.d["d"])
+                            if ini is not None and not RA._reassigned(f, y.d["d"]):
+                                out += sums_in(ini, depth + 1)
+                    return out
                 for a in arith:
                     for cond, truth in flow.facts_at(f, a.id):
-                        if not any(x.kind == "DeclRefExpr" and x.d["d"] in pids for x in cond.walk()):
+                        if not any(x.kind == "DeclRefExpr" and controlled(x) for x in cond.walk()):
                             continue
                         guarded = True
-                        for x in cond.walk():
-                            if x.kind == "BinaryOperator" and x.op == "+":
-                                ops = [y.strip() for y in x.children]
-                                if all(o.kind == "DeclRefExpr" and o.d["d"] in pids for o in ops):
-                                    bad.append("assertion compares %s against the length: the unsigned sum wraps for large "
-                                               "arguments and the check passes" % canon(x))
+                        for x in sums_in(cond):
+                            bad.append("assertion compares %s against the length: the unsigned sum wraps for large "
+                                       "arguments and the check passes" % canon(x))
                 ctx.inst("B5.substring-assert", f.sig, guarded and not bad, f.loc,
                          "; ".join(sorted(set(bad))) if bad else ("bounds assertion present and overflow-safe" if guarded else
                                                                   "pointer arithmetic is not guarded by any assertion on the arguments"), f)
@@ -473,6 +544,66 @@ def check_views(ctx, unit):
             ctx.inst("E.compare-length-first", f.sig, ok, f.loc,
                      "every character access dominated by (lengths equal) and (i < _length): %s; the other length is a complete "
                      "length (size()/strlen, not a bounded scan): %s" % (ok, full), f)
+
+
+def check_cstring_params(ctx, unit, rule="B.cstring-subscript-bounded"):
+    """A `const char *` parameter designates a NUL-terminated string whose length the callee does not know.  A subscript of
+    it is justified when the index is at most strlen(p): by the relational bounds analysis with L = generic_strlen(p) (the
+    call or a local that holds it; `this->_length` counts as L where the branch decisions establish that the two lengths
+    are equal) -- or when the read is the NUL test itself of a scan that only moves on past characters known to be
+    non-NUL.  Comparing the characters of a string of known length with p[i] does neither: an embedded NUL in the
+    string lets the scan run over p's terminator."""
+    ctx.rule(rule, "in basic_string every subscript of a `const char *` parameter has an index <= strlen of that parameter "
+             "(relational bounds analysis with L = generic_strlen(p), lengths related through the dominating decisions)", 1)
+    from .relbounds import RelBounds, INF
+    n_sub = 0
+    for rec in recs_of(unit, STR):
+        for f in cls_fns(unit, rec["qn"]):
+            cps = [p_ for p_ in f.params() if p_["t"].replace(" ", "") in ("constchar*", "constChar*", "constCharT*", "constchar16_t*", "constchar32_t*", "constwchar_t*")]
+            for cp in cps:
+                subs = sorted([n for n in f.events() if n.kind == "ArraySubscriptExpr" and std_unwrap(n.children[0]).kind == "DeclRefExpr"
+                               and std_unwrap(n.children[0]).d["d"] == cp["d"]], key=lambda n: n.loc)
+                if not subs:
+                    continue
+                inits = RA.local_inits(f)
+
+                def is_strlen(x, cp=cp, inits=inits, f=f, depth=0):
+                    x = std_unwrap(x)
+                    if x.is_call() and x.callee and x.callee["n"] in ("generic_strlen", "strlen") and x.args:
+                        a = std_unwrap(x.args[0])
+                        return a.kind == "DeclRefExpr" and a.d["d"] == cp["d"]
+                    if x.kind == "DeclRefExpr" and x.get("local") and x.d["d"] in inits and not RA._reassigned(f, x.d["d"]) and depth < 3:
+                        return is_strlen(inits[x.d["d"]], depth=depth + 1)
+                    return False
+                for k, n in enumerate(subs):
+                    n_sub += 1
+                    eq_this = False
+                    for cond, truth in flow.facts_at(f, n.id):
+                        c, t = cond.strip(), truth
+                        while c.kind == "UnaryOperator" and c.op == "!":
+                            c, t = c.children[0].strip(), not t
+                        if c.kind == "BinaryOperator" and ((c.op == "==" and t) or (c.op == "!=" and not t)):
+                            a, b = c.children
+                            if (path(a) == ("this", "_length") and is_strlen(b)) or (path(b) == ("this", "_length") and is_strlen(a)):
+                                eq_this = True
+
+                    def is_len(x, eq_this=eq_this):
+                        if is_strlen(x):
+                            return True
+                        return eq_this and path(std_unwrap(x)) == ("this", "_length") and std_unwrap(x).kind == "MemberExpr"
+                    rb = RelBounds(f, is_len).run()
+                    st = rb.at.get(n.id)
+                    ok, why = False, "unreachable"
+                    if st is not None:
+                        lo, up = rb.bounds(n.children[1], st)
+                        ok = lo >= 0 and up <= 0
+                        why = "index in [%s, %s]" % ("-inf" if lo <= -INF else lo, "unbounded" if up >= INF else "strlen%+d" % up)
+                    ctx.inst(rule, "%s: %s[] #%d" % (f.sig, cp["n"], k + 1), ok, n.loc,
+                             "subscript %s: %s; nothing relates the index to the length of the C string (an embedded NUL on the other "
+                             "side lets the scan pass its terminator)" % (canon(n.children[1]), why) if not ok else
+                             "subscript %s: %s" % (canon(n.children[1]), why), f)
+    if n_sub == 0:
+        raise AnalysisBroken("anchor vanished: subscripts of a C-string parameter in basic_string")
 
 
 def _eq_lengths(cond, truth, f=None, depth=0):
